@@ -168,6 +168,7 @@ func rulesTraverseStep(c *Ctx, r *Report) {
 	if f != lit {
 		r.analysed(fname(f))
 	}
+	s.fwdStructCopy = true // `step := stack[top]` handed to a predicate by value reads as the frame itself
 	// yield calls with their guards
 	type ycall struct {
 		call  *ssa.Call
